@@ -7,6 +7,8 @@ package main
 
 import (
 	"bytes"
+	"context"
+	"crypto/md5"
 	"encoding/binary"
 	"encoding/hex"
 	"encoding/json"
@@ -22,6 +24,8 @@ import (
 
 	"bngverif/coadrv"
 	"bngverif/hx"
+
+	"github.com/codelaboratoryltd/bng/pkg/ebpf"
 
 	"github.com/codelaboratoryltd/bng/pkg/dhcp"
 	"github.com/codelaboratoryltd/bng/pkg/dhcpv6"
@@ -120,6 +124,7 @@ type run struct {
 	smHung bool
 	v6     *dhcpv6.Server
 	v6conn *net.UDPConn
+	sse    *ha.HASyncer
 }
 
 func (comp) NewRun() hx.Run { return &run{} }
@@ -759,6 +764,47 @@ func (r *run) Do(op string) string {
 		r.v6.HandleMessageForVerif(msg, r.v6conn.LocalAddr().(*net.UDPAddr))
 		return "ok"
 
+	case "lib-hasse":
+		// pkg/ha/sync.go handleSSEData: decode + apply one SSE payload on a standby syncer (state persists in the run)
+		b, ok := arg(1)
+		if !ok {
+			return "badop"
+		}
+		if r.sse == nil {
+			r.sse = ha.NewHASyncer(ha.SyncConfig{NodeID: "standby", Role: ha.RoleStandby,
+				Partner: &ha.PartnerInfo{NodeID: "active", Endpoint: "127.0.0.1:1"}}, ha.NewInMemorySessionStore(), nop)
+		}
+		if err := r.sse.HandleSSEDataForVerif(b); err != nil {
+			return "err"
+		}
+		st := r.sse.Stats()
+		return fmt.Sprintf("ok %d %d", st.MessagesReceived, st.SessionsSynced)
+
+	case "lib-radauth", "lib-radacct":
+		// pkg/radius/client.go: the response handling of Authenticate / SendAccounting, fed by a scripted
+		// RADIUS server on loopback.  mode "signed": <code> <attribute bytes> wrapped in a correctly signed
+		// response to the client's request; mode "raw": the datagram as is (identifier patched in).
+		if len(f) != 4 || (f[1] != "signed" && f[1] != "raw") {
+			return "badop"
+		}
+		code, err := strconv.Atoi(f[2])
+		b, ok := arg(3)
+		if err != nil || !ok || code < 0 || code > 255 {
+			return "badop"
+		}
+		return radClient(f[0] == "lib-radacct", f[1] == "raw", byte(code), b)
+
+	case "lib-dhcp4-conc":
+		// dhcp server4 runs every packet in a goroutine of its own, next to the lease-cleanup loop
+		if len(f) != 2 {
+			return "badop"
+		}
+		sd, err := strconv.Atoi(f[1])
+		if err != nil {
+			return "badop"
+		}
+		return dhcp4Concurrent(int64(sd))
+
 	case "lib-dhcp4":
 		b, ok := arg(1)
 		if !ok {
@@ -869,6 +915,201 @@ func (r *run) Do(op string) string {
 		}
 	}
 	return "badop"
+}
+
+// ---------------------------------------------------------------- RADIUS client behind a scripted server
+
+const radSecret = "s3cret"
+
+func radClient(acct, raw bool, code byte, body []byte) string {
+	// the accounting port is the authentication port + 1
+	var auth, ac *net.UDPConn
+	for try := 0; try < 50 && ac == nil; try++ {
+		a, err := net.ListenUDP("udp", &net.UDPAddr{IP: net.IPv4(127, 0, 0, 1)})
+		if err != nil {
+			return "harness-err " + err.Error()
+		}
+		b, err := net.ListenUDP("udp", &net.UDPAddr{IP: net.IPv4(127, 0, 0, 1), Port: a.LocalAddr().(*net.UDPAddr).Port + 1})
+		if err != nil {
+			a.Close()
+			continue
+		}
+		auth, ac = a, b
+	}
+	if ac == nil {
+		return "harness-err no port pair"
+	}
+	defer auth.Close()
+	defer ac.Close()
+	serve := func(c *net.UDPConn) {
+		buf := make([]byte, 4096)
+		for {
+			n, from, err := c.ReadFromUDP(buf)
+			if err != nil {
+				return
+			}
+			if n < 20 {
+				continue
+			}
+			var resp []byte
+			if raw {
+				resp = append([]byte(nil), body...)
+				if len(resp) > 1 {
+					resp[1] = buf[1]
+				}
+			} else {
+				resp = make([]byte, 20+len(body))
+				resp[0], resp[1] = code, buf[1]
+				binary.BigEndian.PutUint16(resp[2:4], uint16(len(resp)))
+				copy(resp[20:], body)
+				h := md5.New()
+				h.Write(resp[:4])
+				h.Write(buf[4:20])
+				h.Write(body)
+				h.Write([]byte(radSecret))
+				copy(resp[4:20], h.Sum(nil))
+			}
+			c.WriteToUDP(resp, from)
+		}
+	}
+	go serve(auth)
+	go serve(ac)
+	cl, err := radius.NewClient(radius.ClientConfig{
+		Servers: []radius.ServerConfig{{Host: "127.0.0.1", Port: auth.LocalAddr().(*net.UDPAddr).Port, Secret: radSecret}},
+		NASID:   "bng-verif", Timeout: 60 * time.Millisecond, Retries: 1}, nop)
+	if err != nil {
+		return "harness-err " + err.Error()
+	}
+	ctx, cancel := context.WithTimeout(context.Background(), 5*time.Second)
+	defer cancel()
+	if acct {
+		if err := cl.SendAccounting(ctx, &radius.AcctRequest{SessionID: "s1", Username: "u", MAC: cliMAC, StatusType: radius.AcctStatusStop,
+			InputOctets: 1 << 33, OutputOctets: 7, SessionTime: 5, TerminateCause: 1}); err != nil {
+			return "err"
+		}
+		return "ok"
+	}
+	resp, err := cl.Authenticate(ctx, &radius.AuthRequest{Username: "u", Password: "p", MAC: cliMAC})
+	if err != nil {
+		return "err"
+	}
+	return fmt.Sprintf("ok acc=%v st=%d it=%d ip=%s fi=%s class=%s reason=%s", resp.Accepted, resp.SessionTimeout, resp.IdleTimeout,
+		hexs(resp.FramedIP), hexs([]byte(resp.FilterID)), hexs(resp.Class), hexs([]byte(resp.RejectReason)))
+}
+
+// ---------------------------------------------------------------- DHCPv4 handlers, concurrently
+
+type syncConn struct {
+	mu sync.Mutex
+	n  int
+}
+
+func (c *syncConn) ReadFrom(p []byte) (int, net.Addr, error) { return 0, nil, fmt.Errorf("no read") }
+func (c *syncConn) WriteTo(p []byte, a net.Addr) (int, error) {
+	c.mu.Lock()
+	c.n++
+	c.mu.Unlock()
+	return len(p), nil
+}
+func (c *syncConn) Close() error                       { return nil }
+func (c *syncConn) LocalAddr() net.Addr                { return &net.UDPAddr{IP: net.IPv4zero, Port: 67} }
+func (c *syncConn) SetDeadline(t time.Time) error      { return nil }
+func (c *syncConn) SetReadDeadline(t time.Time) error  { return nil }
+func (c *syncConn) SetWriteDeadline(t time.Time) error { return nil }
+
+// dhcp4Concurrent: the real slow-path handler from several goroutines (as server4 runs it) for a handful of
+// clients on a tiny pool with millisecond leases, next to the expired-lease cleanup.  Only a panic is observable.
+func dhcp4Concurrent(sd int64) string {
+	pm := dhcp.NewPoolManager(nil, nop)
+	pool, err := dhcp.NewPool(dhcp.PoolConfig{ID: 1, Name: "p", Network: "10.9.0.0/28", Gateway: "10.9.0.1",
+		DNSServers: []string{"8.8.8.8"}, LeaseTime: time.Millisecond, ClientClass: dhcp.ClientClassResidential})
+	if err != nil {
+		return "harness-err " + err.Error()
+	}
+	if err := pm.AddPool(pool); err != nil {
+		return "harness-err " + err.Error()
+	}
+	loader, err := ebpf.NewLoader("lo", nop)
+	if err != nil {
+		return "harness-err " + err.Error()
+	}
+	srv, err := dhcp.NewServer(dhcp.ServerConfig{Interface: "lo", ServerIP: net.IPv4(10, 9, 0, 1)}, loader, pm, nop)
+	if err != nil {
+		return "harness-err " + err.Error()
+	}
+	conn := &syncConn{}
+	peer := &net.UDPAddr{IP: net.IPv4(10, 9, 0, 200), Port: 68}
+	var workers, cleaner sync.WaitGroup
+	panics := make(chan string, 64)
+	guard := func(wg *sync.WaitGroup, f func()) {
+		defer wg.Done()
+		defer func() {
+			if e := recover(); e != nil {
+				select {
+				case panics <- strings.ReplaceAll(fmt.Sprint(e), "\n", " "):
+				default:
+				}
+			}
+		}()
+		f()
+	}
+	stop := make(chan struct{})
+	for w := 0; w < 6; w++ {
+		workers.Add(1)
+		rr := rand.New(rand.NewSource(sd*31 + int64(w)))
+		go guard(&workers, func() {
+			for i := 0; i < 150; i++ {
+				mac := net.HardwareAddr{2, 0, 0, 0, 1, byte(rr.Intn(4))}
+				ip := net.IPv4(10, 9, 0, byte(2+rr.Intn(13)))
+				mt := []dhcpv4.MessageType{dhcpv4.MessageTypeDiscover, dhcpv4.MessageTypeRequest, dhcpv4.MessageTypeRequest,
+					dhcpv4.MessageTypeRelease, dhcpv4.MessageTypeDecline, dhcpv4.MessageTypeInform}[rr.Intn(6)]
+				mods := []dhcpv4.Modifier{dhcpv4.WithHwAddr(mac), dhcpv4.WithMessageType(mt)}
+				switch mt {
+				case dhcpv4.MessageTypeRequest, dhcpv4.MessageTypeDecline:
+					mods = append(mods, dhcpv4.WithOption(dhcpv4.OptRequestedIPAddress(ip)), dhcpv4.WithOption(dhcpv4.OptServerIdentifier(net.IPv4(10, 9, 0, 1))))
+				case dhcpv4.MessageTypeRelease:
+					mods = append(mods, dhcpv4.WithClientIP(ip))
+				}
+				if rr.Intn(3) == 0 {
+					mods = append(mods, dhcpv4.WithOption(dhcpv4.OptGeneric(dhcpv4.OptionRelayAgentInformation, []byte{1, 3, 'c', 'i', byte('0' + rr.Intn(3))})))
+				}
+				p, err := dhcpv4.New(mods...)
+				if err != nil {
+					continue
+				}
+				srv.HandleDHCPForVerif(conn, peer, p)
+			}
+		})
+	}
+	cleaner.Add(1)
+	go guard(&cleaner, func() {
+		for {
+			select {
+			case <-stop:
+				return
+			default:
+				srv.CleanupExpiredForVerif()
+			}
+		}
+	})
+	done := make(chan struct{})
+	go func() {
+		workers.Wait()
+		close(stop)
+		cleaner.Wait()
+		close(done)
+	}()
+	select {
+	case <-done:
+	case <-time.After(20 * time.Second):
+		return "hang"
+	}
+	select {
+	case p := <-panics:
+		return "panic " + p
+	default:
+		return "ok"
+	}
 }
 
 // ---------------------------------------------------------------- HA stream
@@ -1574,6 +1815,128 @@ func (comp) Gen(r *rand.Rand, tier string, emit func([]string)) {
 			}
 			in = append(in, randoms(r, nRand/3, maxRand, [][]byte{{1, 0, 0, 1, 0, 1}, {3, 0, 0, 1, 0, 3}})...)
 			batch("lib-v6srv", in)
+			// ... and in every protocol state that matters: ONE server, Solicit -> Request installs the lease of
+			// this DUID, then the mutated Renew / Rebind / Release / Decline / Confirm / Information-Request finds it;
+			// the Request is repeated before every mutant so that a Release/Decline does not leave later ones stateless
+			mk := func(t uint8, withServerID bool, ia *dhcpv6.IANA, pd *dhcpv6.IAPD) []byte {
+				opts := []dhcpv6.Option{dhcpv6.MakeClientIDOption(duid)}
+				if withServerID {
+					opts = append(opts, dhcpv6.Option{Code: dhcpv6.OptServerID, Data: srvDUID})
+				}
+				if ia != nil {
+					opts = append(opts, dhcpv6.MakeIANAOption(ia))
+				}
+				if pd != nil {
+					opts = append(opts, dhcpv6.MakeIAPDOption(pd))
+				}
+				return (&dhcpv6.Message{Type: t, TransactionID: [3]byte{9, 9, t}, Options: opts}).Serialize()
+			}
+			solicit := mk(1, false, &dhcpv6.IANA{IAID: 7}, &dhcpv6.IAPD{IAID: 9})
+			request := mk(3, true, &dhcpv6.IANA{IAID: 7}, &dhcpv6.IAPD{IAID: 9})
+			seq := []string{"new", "lib-v6srv " + hexs(solicit), "lib-v6srv " + hexs(request)}
+			for _, t := range []uint8{5, 6, 8, 9, 4, 11, 3} { // renew rebind release decline confirm info-request request
+				raw := mk(t, t != 6 && t != 4, iana, iapd)
+				ms := mutants(r, seed{raw, shift(tlv2Fields(raw[4:]), 4)}, false)
+				for j, m := range ms {
+					if !thorough && j%4 != 0 && j > 40 {
+						continue
+					}
+					seq = append(seq, "lib-v6srv "+hexs(request), "lib-v6srv "+hexs(m))
+					if len(seq) > 400 {
+						emit(seq)
+						seq = []string{"new", "lib-v6srv " + hexs(solicit), "lib-v6srv " + hexs(request)}
+					}
+				}
+			}
+			emit(seq)
+		}
+		// HA: whole SSE payloads through handleSSEData (decode AND apply to the standby's store), in sequence
+		{
+			ts := time.Unix(1700000000, 0).UTC()
+			sess := func(id string) ha.SessionState {
+				return ha.SessionState{SessionID: id, SubscriberID: "sub-" + id, MAC: "02:00:00:00:00:01", IP: "10.0.0.9", VLAN: 100,
+					SessionType: "ipoe", CreatedAt: ts, LastActivity: ts, State: "active"}
+			}
+			var msgs [][]byte
+			for _, m := range []*ha.SyncMessage{
+				{Type: ha.SyncTypeAdd, Sessions: []ha.SessionState{sess("a")}, Timestamp: ts, SequenceNum: 1, NodeID: "active"},
+				{Type: ha.SyncTypeUpdate, Sessions: []ha.SessionState{sess("a"), sess("b")}, Timestamp: ts, SequenceNum: 2, NodeID: "active"},
+				{Type: ha.SyncTypeDelete, Sessions: []ha.SessionState{{SessionID: "a"}, {SessionID: "zz"}}, Timestamp: ts, SequenceNum: 3, NodeID: "active"},
+				{Type: ha.SyncTypeFull, Sessions: []ha.SessionState{sess("c")}, Timestamp: ts, SequenceNum: 4, NodeID: "active"},
+				{Type: ha.SyncTypeFull, Timestamp: ts, NodeID: "active"},
+				{Type: ha.SyncTypeHeartbeat, Timestamp: ts, NodeID: "active"},
+				{Type: ha.SyncTypeFullRequest, Timestamp: ts, NodeID: "x"},
+				{Type: "bogus", Sessions: []ha.SessionState{sess("d")}, Timestamp: ts},
+			} {
+				b, err := json.Marshal(m)
+				if err == nil {
+					msgs = append(msgs, b)
+				}
+			}
+			msgs = append(msgs, []byte(`{"type":"add","sessions":[null]}`), []byte(`{"type":"delete","sessions":[{}]}`), []byte(`{"type":"add","sessions":null}`),
+				[]byte(`{"type":"update","sessions":[{"session_id":""}]}`), []byte(`null`), []byte(`{}`), []byte(`{"type":"add","sessions":[{"vlan":-1,"s_tag":65535}]}`))
+			var in [][]byte
+			for i, m := range msgs {
+				in = append(in, m)
+				if thorough || i < 3 {
+					in = append(in, mutants(r, seed{m, nil}, false)...)
+				}
+			}
+			in = append(in, msgs...) // and once more, on the state the mutants left behind
+			batch("lib-hasse", append(in, randoms(r, nRand/3, maxRand, [][]byte{[]byte("{\"type\":\"add\",\"sessions\":[")})...))
+		}
+		// pkg/radius/client.go: what Authenticate / SendAccounting make of the server's answer
+		{
+			A := coadrv.Attr
+			goodAttrs := [][]byte{
+				{},
+				cat(A(27, u32(3600)), A(28, u32(600)), A(8, []byte{10, 1, 2, 3}), A(11, []byte("gold")), A(25, []byte("class-1")), A(18, []byte("welcome"))),
+				cat(A(27, []byte{1, 2, 3}), A(28, []byte{1, 2, 3, 4, 5}), A(8, []byte{10, 1, 2}), A(8, nil), A(11, nil), A(25, nil)), // wrong-size values
+				cat(A(26, []byte{0, 0, 0, 9, 1, 3, 0x41}), A(26, []byte{0, 0}), A(26, nil), A(79, []byte{1, 2}), A(80, bytes.Repeat([]byte{0}, 16))),
+				cat(A(18, bytes.Repeat([]byte("r"), 253)), A(18, []byte("second"))),
+				cat(A(8, []byte{10, 1, 2, 3}), []byte{0x55}),   // dangling byte
+				cat(A(11, []byte("x")), []byte{25, 1}),         // attribute length 1
+				cat(A(11, []byte("x")), []byte{25, 200, 1, 2}), // attribute overruns
+			}
+			seq := []string{"new"}
+			for _, a := range goodAttrs {
+				for _, code := range []int{2, 3, 11, 5, 0, 255} {
+					seq = append(seq, fmt.Sprintf("lib-radauth signed %d %s", code, hexs(a)))
+				}
+				for _, code := range []int{5, 2, 4} {
+					seq = append(seq, fmt.Sprintf("lib-radacct signed %d %s", code, hexs(a)))
+				}
+			}
+			// unsigned / truncated / oversized-length datagrams: the client must time out, not crash
+			base := cat([]byte{2, 0, 0, 26}, bytes.Repeat([]byte{0xaa}, 16), A(27, u32(60)))
+			raws := [][]byte{{}, {2}, base[:19], base[:20], base, base[:25]}
+			for _, L := range []int{0, 19, 20, 27, 4096, 0xffff} {
+				m := append([]byte(nil), base...)
+				binary.BigEndian.PutUint16(m[2:4], uint16(L))
+				raws = append(raws, m)
+			}
+			if thorough {
+				raws = append(raws, randoms(r, 40, 200, [][]byte{{2, 0, 0, 26}})...)
+			}
+			for i, b := range raws {
+				seq = append(seq, fmt.Sprintf("lib-radauth raw 0 %s", hexs(b)))
+				if i%3 == 0 {
+					seq = append(seq, fmt.Sprintf("lib-radacct raw 0 %s", hexs(b)))
+				}
+			}
+			emit(seq)
+		}
+		// dhcp server4 handles every packet in its own goroutine: the handlers, concurrently, next to the cleanup loop
+		{
+			n := 2
+			if thorough {
+				n = 12
+			}
+			seq := []string{"new"}
+			for i := 0; i < n; i++ {
+				seq = append(seq, fmt.Sprintf("lib-dhcp4-conc %d", r.Intn(1<<30)))
+			}
+			emit(seq)
 		}
 		hv := haValidMsg()
 		batch("lib-hamsg", append(mutants(r, seed{hv, nil}, false), randoms(r, nRand/3, maxRand, [][]byte{[]byte("{\"type\":")})...))
